@@ -10,6 +10,15 @@ package plugins
 
 //@ ghost pluginRollbacks() int
 // ASSUMED contract of a registered plugin (vendored kube-scheduler plugins behind bindPluginWrapper included).
+// BACKED BY PROOFS for the two in-repo implementations that cmd/binder registers: every clause below (frame within
+// fields(pod), pod identity, Rollback keeps pod.Labels) is an `ensures [iface-Plugin.*]` / frame obligation of
+//   gpusharing.(*GPUSharing).PreBind / PostBind / Rollback      (contracts/pkg/binder/plugins/gpusharing) and
+//   k8s_plugins.(*K8sPlugins).PreBind / PostBind / Rollback      (contracts/pkg/binder/plugins/k8s-plugins),
+// which in turn rest on the K8sPlugin.* interface contracts (k8s-plugins/common) proved for dynamicresources and
+// volumebinding. The implementations additionally change their own store ghosts (ConfigMaps: gpusharingconfigmap.cmStored;
+// kube plugins: common.reservedBy / common.boundBy, k8s_plugins.podStateOf); those families are mentioned by no
+// caller-side contract and are therefore not listed in the frames here. pluginRollbacks() counts calls (bumped by the
+// call, not by a body).
 //@ func Plugin.PreBind
 //@   props C11
 //@   modifies fields(pod)
